@@ -219,6 +219,55 @@ def dpg_sac_cases(chk, rng, n):
             chk.disagree(kind, {"case": case, "impl": impl, "model": mr})
 
 
+def ppo_epoch_cases(chk, rng, n):
+    """update_ppo over several epochs: the probability ratio of every epoch is taken against the policy that collected the data
+    (log-probabilities before the first update), and advantages / returns stay the same"""
+    import jax
+    import jax.numpy as jnp
+    import optax
+    from flax import nnx
+    from rl_blox.algorithm import ppo
+    from rl_blox.blox.function_approximator.mlp import MLP
+    from rl_blox.blox.function_approximator.policy_head import SoftmaxPolicy
+    for i in range(n):
+        N, epochs = int(rng.choice([4, 6])), int([1, 2, 3][i % 3])
+        actor = SoftmaxPolicy(MLP(3, 2, [4], "tanh", nnx.Rngs(i)))
+        critic = MLP(3, 1, [4], "tanh", nnx.Rngs(i + 10))
+        oa, oc = nnx.Optimizer(actor, optax.sgd(0.5), wrt=nnx.Param), nnx.Optimizer(critic, optax.sgd(0.1), wrt=nnx.Param)
+        obs = jnp.asarray(rng.normal(size=(N, 3)).astype(np.float32))
+        act = jnp.asarray(rng.integers(0, 2, size=N))
+        rew = jnp.asarray(rng.normal(size=N).astype(np.float32) * 2)
+        term = jnp.asarray((rng.random(N) < 0.3).astype(np.float32))
+        nv = jnp.asarray(rng.normal(size=N).astype(np.float32))
+        logp0 = np.asarray(actor.log_probability(obs, act), dtype=float)
+        calls, orig = [], ppo.ppo_loss
+
+        def rec(actor_, critic_, old_logps, observations, actions, advantages, returns, *a, **k):
+            calls.append((np.asarray(old_logps, dtype=float), np.asarray(advantages, dtype=float), np.asarray(returns, dtype=float)))
+            return orig(actor_, critic_, old_logps, observations, actions, advantages, returns, *a, **k)
+        ppo.ppo_loss = rec
+        try:
+            with jax.disable_jit():
+                ppo.update_ppo(actor, critic, oa, oc, obs, act, rew, term, nv, epochs=epochs, n_envs=1)
+        finally:
+            ppo.ppo_loss = orig
+        case = {"N": N, "epochs": epochs}
+        chk.case(("ppo-epochs", i, N, epochs))
+        chk.count("ppo_epoch_cases")
+        if len(calls) != epochs:
+            chk.fail("C12:update_ppo:epochs", "update_ppo did not evaluate the objective once per epoch", {"case": case, "evaluations": len(calls)})
+            continue
+        for e, (lp, adv, ret) in enumerate(calls):
+            if not np.allclose(lp, logp0, rtol=1e-6, atol=1e-6):
+                chk.fail("C12:update_ppo:old-log-probabilities", "in a later epoch the probability ratio is not taken against the policy that collected the data "
+                         "(the 'old' log-probabilities changed between epochs), so clipped samples keep receiving policy gradient",
+                         {"case": case, "epoch": e, "old_logp_passed": lp.tolist(), "logp_before_first_update": logp0.tolist()})
+                break
+            if not (np.array_equal(adv, calls[0][1]) and np.array_equal(ret, calls[0][2])):
+                chk.fail("C12:update_ppo:targets-changed", "advantages / returns changed between epochs", {"case": case, "epoch": e})
+                break
+
+
 def embedded_policy_cases(chk, rng, n):
     """DPG objectives of the SALE (TD7) and encoder (MR.Q) policies on real modules with non-unit action bounds:
     the critic must be evaluated at the action the policy actually produces."""
@@ -324,12 +373,14 @@ def main(chk):
     dpg_sac_cases(chk, rng, 16 if q else 500)
     a2c_norm_cases(chk, rng, 8 if q else 200)
     embedded_policy_cases(chk, rng, 6 if q else 80)
+    ppo_epoch_cases(chk, rng, 6 if q else 60)
     chk.sample({"note": "stub policy with linear log-probability / sample / entropy networks and linear critics (half-integer weights), dyadic "
                         "batches of size 1-8; value and jax gradient vs documented formulas and vs the dual-number evaluation of the extracted model"})
     return chk.finish(
         rule="pseudo-loss (value, gradient, (N,1)-weight rejection, REINFORCE and actor-critic weights as constants), PPO objective "
              "(ratio 1 and ratios e^{+-0.25}, e^{+-0.5} on both advantage signs; value term; critic gradient), DPG and SAC actor losses, "
              "first temperature step through _update_entropy_coefficient, A2C advantage normalisation observed inside train_policy_a2c; DPG objective of "
-             "the MR.Q encoder policy (mrq_policy_loss) and of the TD7 SALE actor on real modules with unit and non-unit action bounds",
+             "the MR.Q encoder policy (mrq_policy_loss) and of the TD7 SALE actor on real modules with unit and non-unit action bounds; update_ppo with "
+             "1-3 epochs (old log-probabilities, advantages and returns fixed across epochs)",
         assumptions=["policy / critic forward passes are oracles (stub linear modules)", "JAX autodiff trusted to differentiate the traced program",
                      "ratios are kept away from the clip edges (max/min kinks are not compared)", "float32 tolerance 1e-4"])
